@@ -13,6 +13,26 @@ CHECKS = {
             "Every allocation/deallocation/pre-flight event of every run (unlimited, and L=T_i, T_i-1 for the allocation points T_i) is accepted by the TLA+ resource machine XrRuntime: conservation at every event, ok<=>total<=L, payload covered, no underflow, refused bytes not kept, nothing accumulates between runs, zero after drop, host receives the first violation; passing results are L-independent and monotone in L. The accounting design itself is model-checked by TLC (MC_XrRuntime).",
             "Trusts the hooks in src/runtime.rs (state logged at the linearisation point) and the trace normaliser (representation changes only); programs are a hand-written pool + the shipped scripts; sweep is sub-sampled in the quick tier.",
             "DESIGN.md 6 C09, 5 XrRuntime"),
+    "C02": ("model_checking",
+            "TLA+ reference semantics (XrEval/XrCore, XrSyntax) evaluated by TLC; behaviours replayed into the interpreter",
+            "TLC evaluates every generated core program with the executable reference semantics XrEval (values of all top-level bindings, host-call results, output lines) and enumerates all operator chains of 2-3 binary operators with the documented grouping (XrSyntax); the interpreter must reproduce each predicted behaviour binding by binding and line by line, for every call spelling.",
+            "Fragment = what XrEval defines (ints within +-1e8, bool, str, sequences, optionals, tuples, structs, unions, closures, defaults, recursion, errors, display); builtin error texts and the evaluation of arguments right of an error argument are left open; programs are drawn by a seeded typed generator (depth <= 8, <= 40 declarations in the thorough tier).",
+            "DESIGN.md 6 C02, 5 XrEval/XrSyntax"),
+    "C06": ("model_checking",
+            "TLA+ reference semantics (strict-call / violation rules of XrEval) evaluated by TLC + XrRuntime trace validation",
+            "TLC predicts with XrEval (a) error-heavy generated programs, (b) every static root-scope signature with an error at each argument position (strict rule: leftmost error), (c) handler templates and random programs under every value of each limit (a violation is the outcome whatever encloses the tripping call); recorded traces of (c) are validated by XrRuntime (host outcome = first violation raised).",
+            "Dynamic (factory) overloads and signatures without canonical inhabitants are not swept; known finding: Mapping set_default short-circuits its value (kept because a shipped test asserts it).",
+            "DESIGN.md 6 C06"),
+    "C07": ("model_checking",
+            "TLA+ reference semantics with explicit trampoline (XrEval.Tramp) evaluated by TLC over recursion templates; replay",
+            "Every template (self-call in tail position directly or through each documented carrier; in each non-tail position) x iteration count x {no limit, depth limits, recursion limits n-1,n,n+1} is evaluated by TLC and replayed; large counts (1e3..1e5) use the closed form that TLC checked against the machine for n <= 12.",
+            "Carrier set = if, if_error/2, bool and/or, Optional or; other implementation carriers (cast, map_or, tuple and, to_str) are not templated yet.",
+            "DESIGN.md 6 C07"),
+    "C08": ("model_checking",
+            "TLA+ reference semantics with limits (XrEval) over complete limit grids + XrRuntime trace validation + TLC model check of the counter machine",
+            "For each generated program TLC computes the need per limit kind and then the outcome under every limit value 1..need+1 (each kind, and combined) and for host histories of run/reset; the interpreter must agree; recorded traces are validated by XrRuntime (counters exact at every event, every frame counted); stdlib-heavy programs use measured need.",
+            "Search permits cannot be hooked add-only, so the search limit is decided by the reference semantics for nth/take_while/skip_until only; xray-defined stdlib functions are covered by the measured (relative) claim.",
+            "DESIGN.md 6 C08"),
 }
 
 NOT_YET = {}
